@@ -75,16 +75,15 @@ func genMsgAlg(r *rand.Rand, n int) []string {
 			av = []string{"t:2d37", "nil", "b:07", "T", "f:-7"}[r.Intn(5)]
 		case 7:
 			av = []string{"i64:4294967296", "i64:-2147483649", "u64:18446744073709551615", "int:0"}[r.Intn(4)]
-			if r.Intn(2) == 0 { // values that equal the key's algorithm only after a 64- or 32-bit wrap-around
-				av = []string{
-					fmt.Sprintf("u64:%d", uint64(int64(alg))),
-					fmt.Sprintf("i64:%d", int64(alg)+(1<<32)),
-					fmt.Sprintf("i64:%d", int64(alg)-(1<<32)),
-					fmt.Sprintf("u64:%d", uint64(int64(alg))+(1<<32)),
-				}[r.Intn(4)]
-				if alg >= 0 && strings.HasPrefix(av, fmt.Sprintf("u64:%d", alg)) && !strings.Contains(av, "429") {
-					av = fmt.Sprintf("u64:%d", uint64(1<<63)+uint64(alg))
-				}
+		case 8: // values that equal the key's algorithm only after a 64- or 32-bit wrap-around
+			av = []string{
+				fmt.Sprintf("u64:%d", uint64(int64(alg))),
+				fmt.Sprintf("i64:%d", int64(alg)+(1<<32)),
+				fmt.Sprintf("i64:%d", int64(alg)-(1<<32)),
+				fmt.Sprintf("u64:%d", uint64(int64(alg))+(1<<32)),
+			}[r.Intn(4)]
+			if alg >= 0 && r.Intn(2) == 0 {
+				av = fmt.Sprintf("u64:%d", uint64(1<<63)+uint64(alg))
 			}
 		default:
 			av = fmt.Sprintf("int:%d", alg)
